@@ -248,6 +248,8 @@ func c17Sequences(c *Ctx, r *Rng) {
 		cfg := config.NewFrom(config.Values{Git: gitcfg})
 		ctxt := creds.NewCredentialHelperContext(cfg.Git, cfg.Os)
 		var steps, got []string
+		var prevWrapper creds.CredentialHelperWrapper
+		prevProtect, prevG, havePrev := false, "", false
 		k := 2 + r.Intn(4)
 		for j := 0; j < k; j++ {
 			host := Pick(r, []string{"legacy", "strict", "plain", "plain"})
@@ -302,6 +304,7 @@ func c17Sequences(c *Ctx, r *Rng) {
 				got = append(got, "a")
 			}
 			protect := g == "gt" || (g == "gd")
+			thisWrapper, thisProtect := wrapper, protect
 			if protect && hasCR && len(recorded) > 0 {
 				c.R.Add(Finding{Kind: "oracle", What: "a credential value with a carriage return reached `git credential` for a URL with protocol protection enabled (after other URLs were served on the same context)",
 					Case: fmt.Sprintf("C17 seq %s %s", dflt, strings.Join(steps, ";")), Impl: clip(hx(recorded), 300)})
@@ -315,6 +318,14 @@ func c17Sequences(c *Ctx, r *Rng) {
 			// protection applies to that exchange
 			if r.Chance(55) {
 				sub := Pick(r, []string{"approve", "reject"})
+				// … possibly of the wrapper obtained BEFORE this one: after a redirect the request to the new URL
+				// is looked up, filled and sent first, and only then is the outcome of the first URL reported —
+				// under the first URL's own protection setting
+				if havePrev && r.Chance(45) {
+					wrapper, protect = prevWrapper, prevProtect
+					steps = append(steps, prevG)
+					c.R.Count("seq.step.earlier-wrapper")
+				}
 				back := creds.Creds{}
 				for key, v := range wrapper.Input {
 					back[key] = v
@@ -367,6 +378,7 @@ func c17Sequences(c *Ctx, r *Rng) {
 				}
 				c.R.Count("seq.step." + sub)
 			}
+			prevWrapper, prevProtect, prevG, havePrev = thisWrapper, thisProtect, g, true
 		}
 		line := fmt.Sprintf("C17 seq %s %s", dflt, strings.Join(steps, ";"))
 		lines = append(lines, line)
